@@ -31,6 +31,31 @@ CFG = {
         "Leptos.Router.C14_match_iff_flat_partial",
         "Leptos.Router.C14_match_iff_flat_partial_holds",
         "Leptos.Router.C14_simple_aligned_agrees",
+        "Leptos.Router.C14_match_iff_flat_partial_general",
+        "Leptos.Router.C14_aligned_variant_holds",
+        "Leptos.Router.C14_tuple_nesting_flattens",
+        "Leptos.Router.C14_same_atoms_same_match",
+        "Leptos.Router.C14_first_match_wins",
+        "Leptos.Router.C14_match_iff_flat_optional_free",
+        "Leptos.Router.C14_aligned_without_slash_segments",
+        "Leptos.Router.C14_slash_parent_exact",
+        "Leptos.Router.C14_build_then_match_nested",
+        "Leptos.Router.C14_build_then_match_table",
+        "Leptos.Router.seq_build",
+        "Leptos.Router.build_nested",
+        "Leptos.Router.gmatch_build",
+        "Leptos.Router.atom_aligned",
+        "Leptos.Router.seq_aligned",
+        "Leptos.Router.nested_aligned",
+        "Leptos.Router.children_aligned",
+        "Leptos.Router.route_aligned",
+        "Leptos.Router.gmatch_eq_tmatch",
+        "Leptos.Router.tmatch_eq_lenient",
+        "Leptos.Router.patternTokens_wf",
+        "Leptos.Router.strict_imp_gmatch",
+        "Leptos.Router.gmatch_imp_lenient",
+        "Leptos.Router.table_first",
+        "Leptos.Router.judge_aligned",
         "Leptos.Router.pass_simple",
         "Leptos.Router.leaf_simple",
         "Leptos.Router.patternTokens_simple",
@@ -69,8 +94,8 @@ CFG = {
                  "StaticPath::into_paths (one value per param)", "integrations/axum to_axum_path (joining rule only)"],
     "assumptions": ["request paths start with '/'", "well-formed route definitions: wildcard only as last segment of a leaf, static texts non-empty and '/'-free "
                     "(or with one leading '/', or a whole route \"\" / \"/\"), base \"\" or \"/x[/y]\"",
-                    "C14_match_iff_flat_partial is proved for single leaf routes of plain static/param segments (every request path, no SegmentAligned hypothesis since fix-c14-1/2); the general partial statement over arbitrary optional-free "
-                    "route trees (C14_match_iff_flat_partial_general) is OPEN: evaluated on every generated case by the correspondence run, not proved"],
+                    "C14_match_iff_flat_optional_free: the full statement is proved unconditionally for well-formed tables without optional params and without \"/\" segments; C14_match_iff_flat_partial_general is proved for all well-formed route tables WITHOUT optional params, under SegmentAligned (which after fix-c14-1..3 only fails below a \"/\" segment, F-C14-2); "
+                    "tables with optional params are covered by the correspondence run and the known-finding classes only"],
     "manifest": {
         "category": "proof",
         "text": "Lean 4 theorems over all paths/segment trees: matched++remaining=path for every segment kind, nested tuples and (optional-free-parent) nested routes; "
